@@ -1,2 +1,72 @@
-(* Props_C01_static — reserved. *)
+(* C01 — M1 = S (lookup model = routing specification), staged.  Owner: p-equiv.
+   Only statements closed by [exact]; non-vacuity examples next to them. *)
 From FoxBase Require Import Bytes.
+From FoxRoute Require Import Node Lookup Spec Tree Corr StaticEquiv StaticEquiv2.
+Open Scope char_scope.
+
+(* ---- the FULL statement (not proved; never used as a hypothesis) ----
+   WF is meant to be "reachable from Tree.empty_txn by Tree.insert / Tree.remove of
+   patterns accepted by parseRoute".  Direct matches only (tsr = false); the
+   trailing-slash part is C08. *)
+Definition M1_eq_Spec_statement (WF : roots -> Prop) : Prop :=
+  forall r, WF r -> forall method host path,
+  exists fuel0, forall fuel, fuel0 <= fuel ->
+    direct_obs (roots_lookup fuel r method host path false [] []) =
+    sres_direct (spec_lookup (method_patterns r method) host path).
+
+(* ---- stage 1: static tries (no '{', no '*' in any key) ---- *)
+
+(* S on static patterns is exact string membership *)
+Theorem C01_select_static : forall pats host path,
+  Forall (fun p => sbytes p = true /\ is_path_pattern p = true) pats ->
+  select_in pats host path false = if existsb (bytes_eqb path) pats then Some (path, []) else None.
+Proof. exact select_in_static. Qed.
+Print Assumptions C01_select_static.
+
+(* (a) soundness: a direct hit is a registered leaf whose pattern is the path, no params *)
+Theorem C01_static_sound : forall t path lazy fuel n tp pss tpss,
+  swf [] t -> static_fuel path <= fuel ->
+  lookup_by_path fuel t path lazy [] [] = Found (Some n) tp pss tpss -> tp = false ->
+  exists rt, nroute n = Some rt /\ In rt (routes_of_node t) /\ rpat rt = path /\ pss = [].
+Proof. exact lbp_static_sound. Qed.
+Print Assumptions C01_static_sound.
+
+(* (b) completeness with the closed-form fuel bound 4*|path|+6 *)
+Theorem C01_static_complete : forall t path lazy fuel rt,
+  swf [] t -> static_fuel path <= fuel ->
+  In rt (routes_of_node t) -> rpat rt = path ->
+  exists n, lookup_by_path fuel t path lazy [] [] = Found (Some n) false [] [] /\ nroute n = Some rt.
+Proof. exact lbp_static_complete. Qed.
+Print Assumptions C01_static_complete.
+
+(* never Panic / OutOfFuel under the bound *)
+Theorem C01_static_total : forall t path lazy fuel ps0 tps0,
+  swf [] t -> static_fuel path <= fuel ->
+  exists n tp pss tpss, lookup_by_path fuel t path lazy ps0 tps0 = Found n tp pss tpss.
+Proof. exact lbp_static_total. Qed.
+Print Assumptions C01_static_total.
+
+(* (c) M1 = S on static tries, at the level of roots.lookup / spec_lookup *)
+Theorem M1_eq_Spec_static_partial : forall r m t host path lazy fuel,
+  path_only_root r m t -> swf [] t -> static_fuel path <= fuel ->
+  direct_obs (roots_lookup fuel r m host path lazy [] []) =
+  sres_direct (spec_lookup (method_patterns r m) host path).
+Proof. exact roots_lookup_static_eq_spec. Qed.
+Print Assumptions M1_eq_Spec_static_partial.
+
+(* non-vacuity: a trie built by Tree.insert satisfies the hypotheses, and both sides are Some *)
+Definition ex_static_txn : txn :=
+  build [mk_ri "/a" 1 0; mk_ri "/ab" 2 0; mk_ri "/ab/c" 3 0; mk_ri "/b/cd" 4 0; mk_ri "/b/ce" 5 0].
+Example ex_static_hyps :
+  path_only_root (t_roots ex_static_txn) m_get (path_root ex_static_txn) /\ swf [] (path_root ex_static_txn).
+Proof.
+  split.
+  - exists 0, (Node m_get None [path_root ex_static_txn]). vm_compute. repeat split.
+  - apply swfb_sound. vm_compute. reflexivity.
+Qed.
+Example ex_static_match :
+  direct_obs (roots_lookup (static_fuel (S2B "/ab/c")) (t_roots ex_static_txn) m_get [] (S2B "/ab/c") false [] [])
+    = Some (S2B "/ab/c", [])
+  /\ sres_direct (spec_lookup (method_patterns (t_roots ex_static_txn) m_get) [] (S2B "/ab/c")) = Some (S2B "/ab/c", [])
+  /\ direct_obs (roots_lookup (static_fuel (S2B "/b/c")) (t_roots ex_static_txn) m_get [] (S2B "/b/c") false [] []) = None.
+Proof. vm_compute. repeat split. Qed.
